@@ -25,9 +25,11 @@ theorem joinWith_append (sep : String) (a b : List String) (ha : a ≠ []) (hb :
       rw [this]; simp [String.append_assoc]
 
 theorem items_ne_nil (ctx : Option (BinOp × Bool)) (e : Exp α) : items ctx e ≠ [] := by
-  cases e with
-  | bin o l r => rcases items_bin ctx o l r with h | h <;> rw [h] <;> simp
-  | _ => simp [items]
+  by_cases hb : ∃ o l r, e = .bin o l r
+  · obtain ⟨o, l, r, rfl⟩ := hb
+    rcases items_bin ctx o l r with h | h <;> rw [h] <;> simp
+  · obtain ⟨it, h, _⟩ := items_nonbin ctx e (fun o l r he => hb ⟨o, l, r, he⟩)
+    rw [h]; simp
 
 theorem showE_eq_renderItems_aux (tok : α → String) (n : Nat) :
     ∀ (e : Exp α), skel e ≤ n → ∀ ctx, showE tok ctx e = renderItems tok (items ctx e) := by
@@ -36,7 +38,7 @@ theorem showE_eq_renderItems_aux (tok : α → String) (n : Nat) :
     intro e hs ctx
     cases e with
     | bin o l r => simp [skel] at hs
-    | _ => simp [items, renderItems, renderItem, joinWith, showE]
+    | _ => cases ctx <;> simp [items, renderItems, renderItem, joinWith, showE, logicWrap, isLogicVariant]
   | succ n ih =>
     intro e hs ctx
     cases e with
@@ -63,7 +65,7 @@ theorem showE_eq_renderItems_aux (tok : α → String) (n : Nat) :
         by_cases hp : parensRule parent isRhs o = true
         · simp [showE, items, hp, renderItems, renderItem, joinWith, String.append_assoc]
         · simpa [showE, items, hp] using plain
-    | _ => simp [items, renderItems, renderItem, joinWith, showE]
+    | _ => cases ctx <;> simp [items, renderItems, renderItem, joinWith, showE, logicWrap, isLogicVariant]
 
 /-- `Display` text = rendering of the item stream. -/
 theorem showE_eq_renderItems (tok : α → String) (ctx : Option (BinOp × Bool)) (e : Exp α) :
